@@ -493,10 +493,47 @@ fn common_checks(rec: &mut Rec, sim: &mut Sim, prop: &'static str) {
     if !sim.w.respond_errors.is_empty() {
         rec.oracle_fail("C08", &format!("respond() failed: {:?}", sim.w.respond_errors), &sim.w.log);
     }
+    if sim.w.spurious_shutdowns > 0 {
+        rec.oracle_fail("C18", &format!("{} polls reported the shutdown indication although the kill switch was never signalled", sim.w.spurious_shutdowns), &sim.w.log);
+    }
     rec.count(&format!("polls:{}", match sim.w.polls { 0 => "0", 1..=5 => "1-5", 6..=20 => "6-20", _ => ">20" }));
     rec.count(&format!("clients:{}", sim.w.clients.len().min(13)));
     if sim.w.n_refused > 0 {
         rec.count("refused");
+    }
+}
+
+/// Poll while the epoll descriptor signals and let the clients read — WITHOUT supplying any further answer — then:
+/// every response the application has already supplied to a well-behaved client has been received in full. (Settling
+/// a history by answering everything would hide a response that only goes out once a later one is supplied.)
+fn drain_and_check_supplied(rec: &mut Rec, sim: &mut Sim, prop: &'static str) {
+    for _ in 0..200 {
+        let mut progressed = false;
+        for i in 0..sim.w.clients.len() {
+            if sim.w.clients[i].sock.is_some() && sim.plans[i].reads && sim.w.client_read(rec, i) > 0 {
+                progressed = true;
+            }
+        }
+        if sim.w.killed || sim.w.server.is_none() {
+            break;
+        }
+        if sim.poll(rec) {
+            progressed = true;
+        }
+        if !progressed {
+            break;
+        }
+    }
+    for (i, p) in sim.plans.iter().enumerate() {
+        let c = &sim.w.clients[i];
+        if p.sent_garbage || c.misbehaved || c.refused || c.sock.is_none() || !p.reads {
+            continue;
+        }
+        let (resps, leftover) = split_responses(&c.received);
+        let got: Vec<String> = resps.iter().filter(|(c, _)| *c == 200).map(|(_, b)| String::from_utf8_lossy(b).split(':').next().unwrap_or("").to_string()).collect();
+        if got != p.answered || leftover != 0 {
+            rec.oracle_fail(prop, &format!("without any further answer being supplied, client {} has received {:?} (+{} stray bytes) of the supplied {:?}", i, got, leftover, p.answered), &sim.w.log);
+        }
     }
 }
 
@@ -617,6 +654,9 @@ pub fn c08(rec: &mut Rec, rng: &mut Rng, thorough: bool) {
         cfg.w_flush = if k % 4 == 0 { 40 } else { 0 };
         cfg.big = k % 5 == 0 && k % 4 != 0;
         let mut sim = run_history(rec, rng, cfg, "well-behaved");
+        if !sim.w.killed {
+            drain_and_check_supplied(rec, &mut sim, "C08");
+        }
         sim.settle(rec, rng);
         if k % 10 == 0 {
             // a signal interrupts the blocking wait: polling must still return normally (nothing to do)
@@ -1331,6 +1371,9 @@ pub fn c18(rec: &mut Rec, rng: &mut Rng, thorough: bool) {
             sim.connect(rec);
         }
         // before the signal its presence changes nothing (the correspondence compares every poll with the model)
+        if sim.w.spurious_shutdowns > 0 {
+            rec.oracle_fail("C18", &format!("{} polls reported the shutdown indication before the kill switch was signalled", sim.w.spurious_shutdowns), &sim.w.log);
+        }
         let errs_before = sim.w.poll_errors.len();
         sim.w.signal_kill(rec);
         rec.nontrivial();
@@ -1686,6 +1729,7 @@ pub fn srv_enum(rec: &mut Rec, rng: &mut Rng, thorough: bool) {
         if half || awaiting_body {
             sim.w.clients[a].misbehaved = true;
         }
+        drain_and_check_supplied(rec, &mut sim, "C08");
         sim.settle(rec, rng);
         common_checks(rec, &mut sim, "C09");
         check_yield_once(rec, &sim);
